@@ -506,6 +506,14 @@ func (g dgen) raceFrames(n int) []dFrame {
 	return out
 }
 
+// raceDepth: mostly short stacks, sometimes deeper than any fixed initial capacity
+func raceDepth(r *rand.Rand) int {
+	if r.Intn(4) == 0 {
+		return 5 + r.Intn(8)
+	}
+	return 1 + r.Intn(4)
+}
+
 func (g dgen) race() dRace {
 	r := g.r
 	nops := 2
@@ -515,14 +523,14 @@ func (g dgen) race() dRace {
 	ids := r.Perm(nops*2 + 3)
 	var d dRace
 	for i := 0; i < nops; i++ {
-		d.Ops = append(d.Ops, dRaceOp{Write: r.Intn(2) == 0, Addr: 0xc000000000 + uint64(r.Intn(1<<20))*8 + 1, GID: ids[i] + 1, Frames: g.raceFrames(1 + r.Intn(4))})
+		d.Ops = append(d.Ops, dRaceOp{Write: r.Intn(2) == 0, Addr: 0xc000000000 + uint64(r.Intn(1<<20))*8 + 1, GID: ids[i] + 1, Frames: g.raceFrames(raceDepth(r))})
 	}
 	if r.Intn(10) == 0 {
 		d.Ops[r.Intn(nops)].Addr = []uint64{1, 1<<64 - 1, 0xfff}[r.Intn(3)]
 	}
 	for _, i := range r.Perm(nops) {
 		if r.Intn(5) != 0 {
-			d.Creations = append(d.Creations, dRaceCreation{GID: d.Ops[i].GID, Running: r.Intn(2) == 0, Frames: g.raceFrames(1 + r.Intn(3))})
+			d.Creations = append(d.Creations, dRaceCreation{GID: d.Ops[i].GID, Running: r.Intn(2) == 0, Frames: g.raceFrames(raceDepth(r))})
 		}
 	}
 	return d
